@@ -15,7 +15,7 @@ import copy
 
 from harness.props import c17
 from harness.props.c17 import (STR, active_imports, active_imports_any, eff_refs, oracle_c17, spec_of,
-                               step_defs_at_load, step_imports, step_kind, visible_definers)
+                               step_defs_at_load, step_kind, visible_definers)
 
 PHASES = ["syn", "badref", "objf", "modf", "absent"]
 # how the failing load (and its repaired reload) enters textX; weights per provider family.  A model without
